@@ -113,9 +113,9 @@ pub trait Property: Sync + Send {
     fn health(&self, _st: &Stats, _quick: bool) -> Result<(), String> {
         Ok(())
     }
-    /// extra thorough-tier stage (e.g. a libFuzzer campaign); returns a failing case if any
-    fn extra_stage(&self, _quick: bool, _ctx: &RunCtx, _st: &mut Stats) -> Result<(), (Case, String)> {
-        Ok(())
+    /// coverage-guided campaigns of the thorough tier: (fuzz target, runs per job)
+    fn fuzz_plans(&self) -> Vec<(&'static str, u64)> {
+        vec![]
     }
 }
 
@@ -464,10 +464,13 @@ pub fn run_property(p: &dyn Property, quick: bool, ctx: &RunCtx) -> i32 {
         failure = fail_slot.into_inner().unwrap();
     }
 
-    // 5. extra stage (thorough only)
-    if failure.is_none() {
-        if let Err(f) = p.extra_stage(quick, ctx, &mut total) {
-            failure = Some(f);
+    // 5. coverage-guided fuzzing campaigns (thorough only)
+    if failure.is_none() && !quick && std::env::var("VERIF_NO_FUZZ").is_err() {
+        for (target, runs) in p.fuzz_plans() {
+            if let Err(f) = crate::fuzzstage::campaign(p, target, runs, ctx, &mut total) {
+                failure = Some(f);
+                break;
+            }
         }
     }
 
